@@ -45,3 +45,6 @@ def run(ctx):
     _fx.parameter_resolution(ctx)  # the quadrature order given with an operator is the order its assembler integrates with
     _fx.assembler_plumbing(ctx)
     _ab.forwarded_optionals(ctx)
+    from . import c11 as _c11g
+
+    _c11g.geometry(ctx)  # (tools/wiring.py) normals, Jacobians, integration elements against their definitions for a general triangle of any size
